@@ -42,11 +42,30 @@ type Scenario struct {
 	// Dest: "" the harness's own unbuffered file writer (appends a record separator) | "filewriter" the package's
 	// slog.NewFileWriter on the same file (child processes only)
 	Dest string `json:"dest,omitempty"`
+	// Args: the shape of the call's argument list: "" key/value pair | "none" | "attrs" only Attr values | "mixed"
+	Args string `json:"args,omitempty"`
+	// BenchArg (child processes): the process is started with an additional -test.bench argument (a production
+	// binary stays a production process whatever its arguments are)
+	BenchArg bool `json:"bench_arg,omitempty"`
 }
 
+func callArgs(shape string) []any {
+	switch shape {
+	case "none":
+		return nil
+	case "attrs":
+		return []any{slog.NewAttr("k", 1), slog.NewAttr("s", "v")}
+	case "mixed":
+		return []any{"k", 1, slog.NewAttr("s", "v"), slog.Group("g", "a", 1)}
+	}
+	return []any{"k", 1}
+}
+
+var argShapes = []string{"", "", "none", "attrs", "mixed"}
+
 func (s Scenario) String() string {
-	return fmt.Sprintf("%s severity=%v logger-level=%v noInterrupt=%v interruptAlways=%v (flags via %q) destination=%q format=%s production=%v msg=%q",
-		s.EP, slog.Level(s.R), slog.Level(s.L), s.NoInterrupt, s.InterruptAlways, s.FlagHow, s.Dest, s.Format, s.Prod, s.Msg)
+	return fmt.Sprintf("%s severity=%v logger-level=%v noInterrupt=%v interruptAlways=%v (flags via %q) destination=%q args=%q benchArgument=%v format=%s production=%v msg=%q",
+		s.EP, slog.Level(s.R), slog.Level(s.L), s.NoInterrupt, s.InterruptAlways, s.FlagHow, s.Dest, s.Args, s.BenchArg, s.Format, s.Prod, s.Msg)
 }
 
 func epByName(name string) *vlib.EntryPoint {
@@ -190,7 +209,7 @@ func childMain(path string) {
 				res.PanicVal = fmt.Sprint(p)
 			}
 		}()
-		ep.Call(lg, context.Background(), slog.Level(s.R), s.Msg, []any{"k", 1})
+		ep.Call(lg, context.Background(), slog.Level(s.R), s.Msg, callArgs(s.Args))
 		res.Returned = true
 	}()
 	out, _ := json.Marshal(res)
@@ -269,6 +288,9 @@ func runChild(t vlib.TB, test string, s Scenario, dir string) {
 		_ = os.Remove(path + ".res")
 	}()
 	cmd := exec.Command(bin, "-test.run", "^$")
+	if s.BenchArg {
+		cmd = exec.Command(bin, "-test.run", "^$", "-test.bench=^$")
+	}
 	cmd.Env = append(os.Environ(), "VERIF_CHILD="+path, "VERIF_STATS=")
 	var se bytes.Buffer
 	cmd.Stderr = &se
@@ -415,6 +437,8 @@ func TestChildSampled(t *testing.T) {
 		s.FlagHow = rapid.SampledFrom([]string{"set", "set", "addremove", "scope", "restored", "redundant"}).Draw(t, "flagHow")
 		s.Msg = "c12 " + rapid.StringMatching(`[a-z]{1,8}( [a-z]{1,5}){0,2}`).Draw(t, "msg")
 		s.Dest = rapid.SampledFrom([]string{"", "", "filewriter"}).Draw(t, "destination")
+		s.Args = rapid.SampledFrom(argShapes).Draw(t, "argumentShape")
+		s.BenchArg = rapid.IntRange(0, 3).Draw(t, "benchArgument") == 0
 		runChild(t, "TestChildSampled", s, dir)
 	})
 }
@@ -444,7 +468,7 @@ func TestChildMatrix(t *testing.T) {
 								}
 								total++
 								runChild(t, "TestChildMatrix", Scenario{EP: ep, R: int(r), L: L, NoInterrupt: ni, InterruptAlways: ia,
-									Format: f, Prod: prod, Msg: fmt.Sprintf("matrix cell %d", idx), Dest: []string{"", "filewriter"}[idx%2]}, dir)
+									Format: f, Prod: prod, Msg: fmt.Sprintf("matrix cell %d", idx), Dest: []string{"", "filewriter"}[idx%2], Args: argShapes[idx%len(argShapes)], BenchArg: idx%3 == 0}, dir)
 							}
 						}
 					}
@@ -472,6 +496,7 @@ func TestInProcess(t *testing.T) {
 		s.Format = rapid.SampledFrom(formats).Draw(t, "format")
 		s.FlagHow = rapid.SampledFrom([]string{"set", "set", "addremove", "scope", "restored", "redundant"}).Draw(t, "flagHow")
 		s.Msg = "c12 " + vlib.GenMsg().Draw(t, "msg")
+		s.Args = rapid.SampledFrom(argShapes).Draw(t, "argumentShape")
 		prod := vlib.ProductionMode()
 		s.Prod = prod
 		admit, terminate := expect(s, prod)
@@ -495,7 +520,7 @@ func TestInProcess(t *testing.T) {
 					res.Panicked, res.PanicType, res.PanicVal = true, fmt.Sprintf("%T", p), fmt.Sprint(p)
 				}
 			}()
-			ep.Call(lg, context.Background(), slog.Level(s.R), s.Msg, []any{"k", 1})
+			ep.Call(lg, context.Background(), slog.Level(s.R), s.Msg, callArgs(s.Args))
 			res.Returned = true
 		}()
 		var rec []byte
